@@ -116,7 +116,7 @@ def parse_unit(path):
                 u.loops[key] = dict(lines=[], line=ln)
                 block = ("loop", u.loops[key], "%s.loop%d" % key)
             elif w[0] == "hint":
-                m = re.match(r"hint\s+(\S+)\s+(before|after_block|after|replace)\s+`(.*)`(\s+nth=(\d+))?\s*$", d)
+                m = re.match(r"hint\s+(\S+)\s+(before|after_block|after_stmt|after|replace)\s+`(.*)`(\s+nth=(\d+))?\s*$", d)
                 if not m:
                     raise BuildError("%s:%d bad hint directive" % (path, ln))
                 h = dict(fn=m.group(1), where=m.group(2), anchor=m.group(3), lines=[], nth=int(m.group(5) or 0),
@@ -779,6 +779,22 @@ def transform_fn(u, fnkey, text, em, meta, is_trait_impl=False, nested=False, st
             # insert at start of the line containing the anchor
             ls = plain.rfind("\n", 0, p) + 1
             inserts.append(("insert", ls, h["lines"], "%s.hint" % fnkey))
+        elif h["where"] == "after_stmt":
+            # after the `;` that ends the (possibly multi-line) statement containing the anchor
+            k0 = [k for k in range(len(toks)) if toks[k][2] >= p]
+            if not k0:
+                raise BuildError("anchor lost: hint anchor %r in %s" % (h["anchor"], fnkey))
+            j_ = k0[0]
+            while j_ < len(toks) and toks[j_][1] != ";":
+                if toks[j_][1] in ("(", "[", "{"):
+                    j_ = rsx.match_close(toks, j_)
+                j_ += 1
+            if j_ >= len(toks):
+                raise BuildError("anchor lost: statement of hint anchor %r in %s has no end" % (h["anchor"], fnkey))
+            le = plain.find("\n", toks[j_][3])
+            if le < 0:
+                le = len(plain)
+            inserts.append(("insert", le + 1, h["lines"], "%s.hint" % fnkey))
         elif h["where"] == "after_block":
             # after the closing brace of the block statement that opens on the anchor's line (if/while/for/match {..})
             le0 = plain.find("\n", p)
